@@ -78,7 +78,7 @@ class ESScript:
         return v
 
 
-def make_es(S, f, d, box, boundary, version, nrbe, auto, single_dim, pool, keyed=False):
+def make_es(S, f, d, box, boundary, version, nrbe, auto, single_dim, pool, keyed=False, grid_kind='trapezoid', real_benefits=False):
     """Extend-split instance on the real classes with P3 stand-ins for the error / benefit estimates:
       calc_error(objectID)            -> error 1 or 0 chosen by the solver for the first `pool` new areas of a round, 0 otherwise
       compute_benefits_for_operations -> extend/split benefits chosen by the solver (automatic_extend_split)
@@ -87,13 +87,15 @@ def make_es(S, f, d, box, boundary, version, nrbe, auto, single_dim, pool, keyed
     ES, CELL, GO, G, EC, RO, RC = mods()
     a = np.array([box[0]] * d, dtype=float)
     b = np.array([box[1]] * d, dtype=float)
-    grid = G.TrapezoidalGrid(a=a, b=b, boundary=boundary)
+    grid = G.TrapezoidalGrid(a=a, b=b, boundary=boundary) if grid_kind == 'trapezoid' else G.LagrangeGrid(a=a, b=b, boundary=boundary, p=2)
     op = GO.Integration(f=f, grid=grid, dim=d)
     sa = ES.SpatiallyAdaptiveExtendScheme(a, b, number_of_refinements_before_extend=nrbe, version=version, automatic_extend_split=auto,
                                           split_single_dim=single_dim, operation=op)
     script = ESScript(sa, pool, keyed)
-    sa.calc_error = script.calc_error
-    sa.compute_benefits_for_operations = script.benefits
+    if not real_benefits:  # with the real benefit computation the real error computation (it prepares sum_siblings etc.) stays in place as well
+        sa.calc_error = script.calc_error
+    if not real_benefits:
+        sa.compute_benefits_for_operations = script.benefits
     if single_dim:
         sa.get_twin_error = script.twin_error
     return sa, op, grid, a, b
@@ -187,8 +189,8 @@ def local_combination_goals(S, sa, d, f, tag, out_len=1, interp=True):
         S.prove(ok, tag + ':public-call-reproduces-F-at-interior-area-grid-points')
 
 
-def run_es(S, d, lmin, lmax, box, boundary, version, nrbe, auto, single_dim, pool, cap, f, after_round=None, reevaluate=False, keyed=False):
-    sa, op, grid, a, b = make_es(S, f, d, box, boundary, version, nrbe, auto, single_dim, pool, keyed=keyed)
+def run_es(S, d, lmin, lmax, box, boundary, version, nrbe, auto, single_dim, pool, cap, f, after_round=None, reevaluate=False, keyed=False, grid_kind='trapezoid', real_benefits=False):
+    sa, op, grid, a, b = make_es(S, f, d, box, boundary, version, nrbe, auto, single_dim, pool, keyed=keyed, grid_kind=grid_kind, real_benefits=real_benefits)
     orig_refine = sa.refine
 
     def observed_refine():
@@ -198,7 +200,11 @@ def run_es(S, d, lmin, lmax, box, boundary, version, nrbe, auto, single_dim, poo
         return r
 
     sa.refine = observed_refine
-    res = sa.performSpatiallyAdaptiv(lmin, lmax, None, tol=-1.0, max_evaluations=cap, print_output=False, reevaluate_at_end=reevaluate)
+    est = None
+    if real_benefits:
+        ES, CELL, GO, G, EC, RO, RC = mods()
+        est = EC.ErrorCalculatorExtendSplit()
+    res = sa.performSpatiallyAdaptiv(lmin, lmax, est, tol=-1.0, max_evaluations=cap, print_output=False, reevaluate_at_end=reevaluate)
     return sa, op, a, b, res
 
 
